@@ -173,6 +173,30 @@ def random_cfg(rnd, mods):
     return {"verb": verb, "dir": d, "exc": exc, "subs": [(skind, s) for s in subs], "objs": [(okind, o) for o in objs], "anything": False}
 
 
+def switch_anything_alias(ev, mods, imps, rnd, acc):
+    """ONE rule object: '<subject> should not import anything' is applied, then the same object is switched to
+    'be imported by anything' (and back) and applied again.  Each application is judged on the configuration the
+    object has at that moment."""
+    from pytestarch import Rule
+
+    subs = pick_unrelated(rnd, mods, 1)
+    if not subs:
+        return
+    kind = rnd.choice(["named", "named", "sub"])
+    r = Rule().modules_that()
+    r = r.are_named(subs[0]) if kind == "named" else r.are_sub_modules_of(subs[0])
+    r = r.should_not()
+    order = ["import_anything", "be_imported_by_anything"]
+    if rnd.random() < 0.5:
+        order.reverse()
+    for step, name in enumerate(order + order[:1]):
+        getattr(r, name)()
+        HUB.case = {"kind": "switch-anything", "mods": mods, "imps": imps, "subject": [kind, subs[0]], "order": order, "step": step}
+        run(r, ev)
+        acc.evaluated()
+    acc.count("rule_objects_switched_between_anything_aliases")
+
+
 def randomised(spec, acc):
     rnd = random.Random(spec["seed"])
     done = 0
@@ -180,6 +204,8 @@ def randomised(spec, acc):
         mods = random_tree(rnd)
         imps = random_imports(rnd, mods, k_max=12)
         ev = build(mods, imps)
+        if rnd.random() < 0.3:
+            switch_anything_alias(ev, mods, imps, rnd, acc)
         for _ in range(12):
             cfg = random_cfg(rnd, mods)
             if cfg is None:
@@ -193,6 +219,18 @@ def randomised(spec, acc):
 
 
 def replay(case, acc):
+    if case.get("kind") == "switch-anything":
+        from pytestarch import Rule
+
+        ev = build(case["mods"], [tuple(i) for i in case["imps"]])
+        kind, name = case["subject"]
+        r = Rule().modules_that()
+        r = (r.are_named(name) if kind == "named" else r.are_sub_modules_of(name)).should_not()
+        for step, n in enumerate(case["order"] + case["order"][:1]):
+            getattr(r, n)()
+            HUB.case = dict(case, step=step)
+            run(r, ev)
+        return
     ev = build(case["mods"], [tuple(i) for i in case["imps"]])
     HUB.case = case
     cfg = case["cfg"]
@@ -214,6 +252,8 @@ def floors(acc, tier):
         for o in ("pass", "fail"):
             if h.get(f"{s}:{o}", 0) == 0:
                 why.append(f"shape {s} never observed with outcome {o}")
+    if acc.counters["rule_objects_switched_between_anything_aliases"] < 100:
+        why.append(f"only {acc.counters['rule_objects_switched_between_anything_aliases']} rule objects switched between the two 'anything' aliases")
     if acc.counters["c01_judged_nested_lists"] < 100:
         why.append(f"only {acc.counters['c01_judged_nested_lists']} rules with nested module lists on one side judged")
     if acc.counters["c01_judged"] < 10000:
